@@ -18,6 +18,7 @@ enum Carrier
 };
 enum Family { F_ADD = 0, F_SUB, F_MUL, F_COPY };
 enum Aux { AUX_NONE = 0, AUX_PTR, AUX_REGS };
+enum Alias { AL_NONE = 0, AL_CA, AL_CB, AL_AB, AL_CAB, NAL }; // result object == a, == b, a == b, all three one object
 enum { MAXL = 8 };
 
 struct Operand
@@ -34,6 +35,7 @@ struct CallArgs
     uint64_t *idx[3];           // index arrays (lanes entries)
     uint64_t cval[3][3];        // const_val coefficients (written back by the wrapper when passed by non-const reference)
     uint64_t reg[3][3][MAXL];   // registers: [slot][coefficient][lane]; result registers are written back, input registers too
+    int root[3];                // alias forms: slot q uses the OBJECT of slot root[q] (root[q] == q: its own object)
     uint64_t *auxptr;           // precomputed sums, pointer form
     uint64_t auxreg[3][MAXL];   // precomputed sums, register form
 };
@@ -49,6 +51,7 @@ struct Spec
     int family, lanes;
     Operand r, a, b;
     int aux;
+    int alias;           // alias forms expressible by rule (decls.py can_share): bit0 c:a, bit1 c:b, bit2 a:b, bit3 c:a:b
     int covered;         // 0 = uncovered (call == 0), why holds the reason
     const char *why;
     void (*call)(CallArgs &);
